@@ -19,5 +19,6 @@ def run(ctx, crate):
     D.rule_shift_full_frame(ctx, crate)
     D.rule_bar_rows_split(ctx, crate)
     D.rule_height_guard(ctx, crate)
+    D.rule_painted_line_terminated(ctx, crate)
     D.rule_text_not_counted(ctx, crate)
     D.rule_draw_order(ctx, crate)
